@@ -583,9 +583,26 @@ class Executor:
         if len(args) != func.nargs:
             raise Inconclusive("arity mismatch calling %s: %d args for %d params" % (func.name, len(args), func.nargs))
         for i, a in enumerate(args):
+            # `<&T as Trait>::m` forwarding impls of core (`impl Trait for &T { fn m(&self,..) { (**self).m(..) } }`) are
+            # resolved straight to the impl for T: strip the extra reference levels the forwarding impl would strip.
+            want = ref_depth(func.locals.get(i + 1, ""))
+            have = self.actual_ref_depth(st, a)
+            while have > want and isinstance(a, Ref):
+                a = self.read(st, a.cell, a.path)
+                have -= 1
             st.cells[(fr.fid, i + 1)] = a
         st.frames.append(fr)
         return fr
+
+    def actual_ref_depth(self, st, v):
+        n = 0
+        while isinstance(v, Ref) and n < 8:
+            n += 1
+            try:
+                v = self.read(st, v.cell, v.path)
+            except Inconclusive:
+                break
+        return n
 
     def run_func(self, func, args, st):
         base = len(st.frames)
@@ -787,6 +804,19 @@ class Executor:
             self.push_frame(st, func, args, dest=t.a["dest"], ret_target=t.a["target"])
             return None
         raise Inconclusive("unknown callee: " + callee)
+
+
+def ref_depth(ty):
+    t = ty.strip()
+    n = 0
+    while t.startswith("&"):
+        n += 1
+        t = t[1:].lstrip()
+        if t.startswith("mut "):
+            t = t[4:].lstrip()
+        if t.startswith("'"):
+            t = t.split(" ", 1)[1].lstrip() if " " in t else t
+    return n
 
 
 def site_of(fr, t):
